@@ -60,7 +60,7 @@ def run(ctx):
                 "steps dividing and not dividing the span, spans shorter than the interpolation order, explicit date lists) on two "
                 "orbits sharing one propagator instance; each history is replayed for each propagator kind. Distinct/non-trivial = "
                 "distinct (kind, operation, range class, history length, listeners shared) classes replayed")
-    base = {"H": 4, "ELo": -40, "EHi": 80, "EN": 4, "EExtra": set(), "Order": 8, "Orbits": {1, 2}}
+    base = {"H": 4, "ELo": -40, "EHi": 80, "EN": 4, "EExtra": set(), "Tolerant": False, "Order": 8, "Orbits": {1, 2}}
     # ---- (A) single calls over a wide grid -------------------------------------------------------------
     wide = dict(base)
     wide.update({"Starts": {-9, -4, 0, 3, 8}, "Spans": {-13, -8, 0, 5, 12, 30, 37},
@@ -76,13 +76,14 @@ def run(ctx):
     replay(ctx, kn, wide, ["keplernum"])
     # ---- (A2) defaults (step / start / stop left out) and a table that is not uniformly sampled ---------------------------------
     nonu = dict(base)
-    nonu.update({"ELo": -12, "EHi": 24, "EExtra": {-11, -10, 13}, "Starts": {-12, -9, 0, 3}, "Spans": {-8, 5, 12, 21, 24, 36}, "StepsOut": {0, 3},
+    nonu.update({"ELo": -12, "EHi": 24, "EExtra": {-11, -10, 13}, "Tolerant": True, "Starts": {-30, -14, -12, -9, 0, 3, 26}, "Spans": {-8, 5, 12, 21, 24, 36, 50}, "StepsOut": {0, 3},
                  "PropTimes": {-11, 5}, "DateLists": seqs([(0, 4, 13)])})
     hs = explore(ctx, "defaults and a non-uniform table", nonu, 1)
     hsn = [dict(h, defaults=True) for h in hs if h["calls"][0]["o"] == 1]
     replay(ctx, hsn, nonu, ["ephem"])
-    replay(ctx, [h for h in hsn if h["calls"][0]["s"] == 0 or h["calls"][0]["op"] != "iter"], nonu, ["keplernum"])
-    replay(ctx, [h for h in hsn if h["calls"][0]["s"] != 0 and h["calls"][0]["a"] == 0], nonu, ["kepler", "sgp4"])
+    strict = [h for h in hsn if h["calls"][0]["op"] != "iter-tolerant"]
+    replay(ctx, [h for h in strict if (h["calls"][0]["s"] == 0 and -12 <= h["calls"][0]["a"] <= 3) or h["calls"][0]["op"] != "iter"], nonu, ["keplernum"])
+    replay(ctx, [h for h in strict if h["calls"][0]["s"] != 0 and h["calls"][0]["a"] == 0], nonu, ["kepler", "sgp4"])
     # ---- (B) histories: call sequences on shared objects --------------------------------------------------
     small = dict(base)
     small.update({"Starts": {-4, 0, 3}, "Spans": {-8, 5, 12}, "StepsOut": {3, 4}, "PropTimes": {-4, 5},
